@@ -165,7 +165,8 @@ Definition jt_rows (t : tri3) (w : Z) (al : alignment) (has_fill : bool) : optio
   let ct := jt_sorted_clockwise t in
   match jt_styled_bounding_box t w al, jt_is_collapsed ct w so with
   | Some bb, Some coll =>
-      let collapsed := coll && so_eqb so SORight in
+      (* scanline_intersections.rs:41-48: a stroke of width zero never covers the interior *)
+      let collapsed := (0 <? w) && coll && so_eqb so SORight in
       let '(y0, y1) := rows bb in
       all_some (map (jt_row ct w so has_fill collapsed) (range y0 y1))
   | _, _ => None
